@@ -564,6 +564,18 @@ def corpus_C10(tier):
                     bscale=float(corpus._pick(rng, [5.0, 20.0])), mag=float(corpus._pick(rng, [3.0, 10.0])), x0place=["in"] * nn, maxfun=40, timeout=300.0,
                     rel_tol=float(corpus._pick(rng, [0.3, 0.6, 0.9])))
         out.append(inst)
+    # regulariser and a start with ZERO residual (a warm start at the unregularised fit): the objective there is h(x0), not small
+    for j in range(12 if tier == "quick" else 150):
+        nn = int(rng.integers(1, 4))
+        inst = dict(id=730000 + j, seed=int(rng.integers(0, 2 ** 31 - 1)), n=nn, m=nn, prob="target", x0atmin=True, reg="l1", lam=float(corpus._pick(rng, [0.01, 0.1, 1.0])), maxfun=30,
+                    rhoend=1e-3, timeout=300.0, tdist=float(corpus._pick(rng, [0.5, 5.0])))
+        if j % 3 == 1:
+            inst.update(bounds="both", bscale=20.0, scaling=True, x0place=["in"] * nn)
+        elif j % 3 == 2:
+            inst.update(nsamples="2")
+        if j % 4 == 3:
+            inst.update(abs_tol=float(corpus._pick(rng, [1e-6, 1e-3])))
+        out.append(inst)
     # finite residuals whose squares overflow (every objective value is +inf): whatever the exit, it must not be reported as a success
     for j in range(12 if tier == "quick" else 120):
         inst = dict(id=710000 + j, seed=int(rng.integers(0, 2 ** 31 - 1)), n=int(rng.integers(1, 4)), m=3, prob=corpus._pick(rng, ["nl", "lin"]), rhoend=float(corpus._pick(rng, [1e-2, 1e-4])),
